@@ -10,15 +10,68 @@ def keep(l):
     return l.startswith(("adopt ", "ctr ", "store", "ev w ", "ev save", "ev del", "pub ", "rs err"))
 
 
+def key_kind(k):
+    if k == 0:
+        return "clientid"
+    if k & 0x10000:
+        return "marker"
+    return "outbound"
+
+
 def mon_damage(tr, sc):
+    """judges the implementation's own trace: (1) every record the store shows as failing its checksum right before
+    AdoptSession is named in a warning; (2) once AdoptSession accepted a store, no operation fails on a damaged record
+    (the client would repeat that failure on every connect or redelivery: it cannot connect, or cannot receive)"""
     out = []
+    corrupt = []          # keys the harness found corrupt in the last `store` listing
+    adopted = False       # AdoptSession succeeded and no damage was done since
+    client_id = None
     for i, (op, lines) in enumerate(tr):
         f = op.split()
-        if f and f[0] == "adopt":
+        if not f:
+            continue
+        if f[0] == "store":
+            corrupt = []
+            for l in lines:
+                if l.startswith("store"):
+                    for ent in l.split()[1:]:
+                        k, v, _ = ent.split(":")
+                        if v == "corrupt":
+                            corrupt.append(int(k, 16))
+        elif f[0] == "damage":
+            adopted = False
+        elif f[0] == "init":
+            adopted = False
+            if any(l == "init ok" for l in lines):
+                client_id = bytes.fromhex(f[1])
+        elif f[0] == "adopt":
             res = [l for l in lines if l.startswith("adopt ")]
-            if res and res[0].startswith("adopt fatal") and "deny" not in res[0]:
-                # fatal is legitimate only when the configured limits are below the pending count
-                pass
+            adopted = bool(res) and res[0].startswith("adopt ok")
+            if adopted and i > 0 and tr[i - 1][0].split()[:1] == ["store"]:
+                warned = set()
+                for w in res[0].split(None, 2)[2].split(";"):
+                    if w.startswith(("corrupt-deleted:", "corrupt-kept:")):
+                        warned.add(int(w.split(":")[1], 16))
+                for k in corrupt:
+                    if k not in warned:
+                        out.append(("unreported:" + key_kind(k),
+                                    "AdoptSession gave no warning for the damaged %s record %#x" % (key_kind(k), k)))
+            corrupt = []
+        elif adopted:
+            for l in lines:
+                p = l.split()
+                if l.startswith("ev w ") and p[3].startswith("10") and client_id is not None:
+                    raw = bytes.fromhex(p[3])
+                    if len(raw) < 14 or raw[1] & 0x80 or len(raw) < 2 + raw[1]:
+                        continue          # a partial write of the CONNECT (fault injection)
+                    k = 2 + 10
+                    n = (raw[k] << 8) | raw[k + 1]
+                    if raw[k + 2:k + 2 + n] != client_id:
+                        out.append(("clientid-lost", "after a successful AdoptSession the CONNECT carries the client identifier `%s`, the session was made for `%s`"
+                                    % (raw[k + 2:k + 2 + n].hex() or "(empty)", client_id.hex())))
+                if (l.startswith(("rs err", "pub err", "ret ")) and "corrupt" in p[-1].split("+")) or l.startswith("panic"):
+                    kind = "clientid" if not any(x.startswith("ev dial") for x in lines) and l.startswith("rs err") else "record"
+                    out.append(("bricked:" + kind, "after a successful AdoptSession `%s` fails on a damaged record: `%s`" % (op[:40], l)))
     return out
 
 
